@@ -1,9 +1,9 @@
-(* C04_quest.v — QUEST on consistent data (weights 1/2, 1/2), under the explicit premise det S <> 0 (the code forms
-   adj S = det S * inv S, so its formulas are undefined where S is singular; the property's guard does not exclude that surface):
+(* C04_quest.v — QUEST on consistent data (weights 1/2, 1/2).  Since /repo commit 01f114c QUEST computes tr(adj S) from the
+   principal 2x2 minors of S (no det S * inv S any more), so neither statement needs the former premise det S <> 0:
    quest_root        : the numerator phi(1) of the FIRST Newton step (started at sum(weights) = 1) is 0, i.e. 1 is a root of the
-                       code's quartic  l^4 - (a+b) l^2 - c l + (ab + c sigma - d)
-   quest_closed_form : the code's closed-form quaternion [gamma, Chi] / norm evaluated at that root is +-q  (= 2 w cd^2 q before
-                       normalisation, so w <> 0 is needed: gamma vanishes at half-turns)
+                       code's quartic  l^4 - (a+b) l^2 - c l + (ab + c sigma - d)  — for EVERY unit q
+   quest_closed_form : (C04_quest_cf.v) the code's closed-form quaternion [gamma, Chi] / norm evaluated at that root is +-q
+                       (= 2 w cd^2 q before normalisation, so w <> 0 is needed: gamma vanishes at half-turns)
    Both targets are the values computed along the converged side of C04_quest (see tools/props/C04.py). *)
 From Coq Require Import Reals List Lra.
 From AhrsLib Require Import Base Rot.
@@ -12,35 +12,15 @@ From AhrsProps Require Import C04_tac.
 Import ListNotations.
 Open Scope R_scope.
 
-(* S = B + B^T with B = 1/2 R^T (g g^T + m m^T), g = (0,0,1), m = (cd,0,sd) *)
-Definition quest_S (w x y z cd sd : R) : list R :=
-  let B := mmul3 (mtr3 (Rspec [w;x;y;z])) [cd*cd; 0; cd*sd;  0; 0; 0;  cd*sd; 0; 1 + sd*sd] in
-  [(e B 0 + e B 0)/2; (e B 1 + e B 3)/2; (e B 2 + e B 6)/2;
-   (e B 3 + e B 1)/2; (e B 4 + e B 4)/2; (e B 5 + e B 7)/2;
-   (e B 6 + e B 2)/2; (e B 7 + e B 5)/2; (e B 8 + e B 8)/2].
-
-Lemma mul_div_cancel d u : d <> 0 -> d * (u / d) = u.
-Proof. intros. field. assumption. Qed.
 Lemma scale_div_cancel s u : s <> 0 -> s * u / s = u.
 Proof. intros. field. assumption. Qed.
 
-(* the code's det S is the spec's; cancel  det S * (cofactor / det S) *)
-Ltac delta_cancel w x y z cd sd HD :=
-  match goal with |- context [?d * (_ / ?d)] =>
-    let ED := fresh "ED" in
-    assert (ED : d = det3 (quest_S w x y z cd sd)) by
-      (cbv [quest_S det3 mmul3 mtr3 Rspec e nth]; field_simplify_eq; [first [ring | hring]|lra..]);
-    rewrite !(mul_div_cancel d) by (rewrite ED; exact HD); clear ED
-  end.
-
 Lemma quest_root w x y z sa sm cd sd : unit4 w x y z -> dip cd sd -> 0 < sa -> 0 < sm ->
-  det3 (quest_S w x y z cd sd) <> 0 ->
   exists phi phi', C04_quest_newton1_R w x y z sa sm cd sd = Val [phi; phi'] /\ phi = 0.
 Proof.
-  intros Hq [Hd Hc] Hsa Hsm HD. unfold unit4 in Hq. unfold C04_quest_newton1_R. cbv zeta. orient_unit.
+  intros Hq [Hd Hc] Hsa Hsm. unfold unit4 in Hq. unfold C04_quest_newton1_R. cbv zeta. orient_unit.
   do 2 (root1 sa sm cd).
   rewrite !(scale_div_cancel sa), !(scale_div_cancel sm) by lra.
-  delta_cancel w x y z cd sd HD.
   eexists. eexists. split; [reflexivity|].
   field_simplify_eq; [hring|lra..].
 Qed.
